@@ -641,7 +641,9 @@ func argOrder(m dsl.Matcher) {
 func stringConcatSimplify(m dsl.Matcher) {
 	m.Match(`strings.Join([]string{$x, $y}, "")`).Suggest(`$x + $y`)
 	m.Match(`strings.Join([]string{$x, $y, $z}, "")`).Suggest(`$x + $y + $z`)
-	m.Match(`strings.Join([]string{$x, $y}, $glue)`).Suggest(`$x + $glue + $y`)
+	m.Match(`strings.Join([]string{$x, $y}, $glue)`).
+		Where(m["glue"].Pure).
+		Suggest(`$x + $glue + $y`)
 }
 
 //doc:summary Detects manual conversion to milli- or microseconds
